@@ -101,12 +101,13 @@ def _marker_blocks(ctx):
     for st in ast.walk(loop):
         if isinstance(st, ast.Expr) and isinstance(st.value, ast.Call):
             c = st.value
-            if dotted(c.func) == 'prep_new_tract' and [norm(a) for a in c.args] == ['block']:
+            if (dotted(c.func) or '').split('.')[-1].lstrip('_') == 'prep_new_tract' and [norm(a) for a in c.args] == ['block']:
                 sinks.append(st)
             if norm(c.func) == 'self.unused_components.append' and c.args and isinstance(c.args[0], ast.Tuple) \
                     and norm(c.args[0].elts[-1]) == 'block':
                 sinks.append(st)
-    ctx.floor('block sinks', len(sinks), 3)
+    if not ctx.floor('block sinks', len(sinks), 3):
+        return          # not every sink was recognised: the all-paths question is not decided
     start = cfg.node_of(b)
     header = cfg.node_of(loop)
     # path refinement: `block` was just bound to a slice, so the True edge of
